@@ -662,6 +662,25 @@ fn body_json<'tcx>(tcx: TyCtxt<'tcx>, def: LocalDefId, body: &Body<'tcx>) -> J {
         o.push(("is_pub", J::Bool(tcx.visibility(did).is_public())));
         o.push(("asyncness", J::Bool(tcx.asyncness(did).is_async())));
     }
+    if matches!(dk, DefKind::Fn | DefKind::AssocFn) {
+        // generic parameter names in the order of a call's generic arguments (parent/impl parameters first)
+        let mut names: Vec<J> = Vec::new();
+        let mut chain = Vec::new();
+        let mut g = tcx.generics_of(did);
+        loop {
+            chain.push(g);
+            match g.parent {
+                Some(p) => g = tcx.generics_of(p),
+                None => break,
+            }
+        }
+        for g in chain.iter().rev() {
+            for p in g.own_params.iter() {
+                names.push(J::s(p.name.to_string()));
+            }
+        }
+        o.push(("generics", J::Arr(names)));
+    }
     if let Some(ck) = tcx.coroutine_kind(did) {
         o.push(("coroutine_kind", J::s(format!("{:?}", ck))));
     }
